@@ -28,7 +28,7 @@ package shutterevents
 //@   ensures ret1 == nil ==> (forall i, j :: 0 <= i && i < j && j < len(ret0.Keypers) ==> ret0.Keypers[i] != ret0.Keypers[j])
 //@   ensures ret1 == nil ==> (len(ret0.Keypers) == 0 || fresh(ret0.Keypers))
 //@   invariant len(keypers) == 0 || fresh(keypers)
-//@   invariant len(keypers) == rangeindex + 1
+//@   invariant len(keypers) == rangeindex + 1 && len(keypers) <= len(m.Keypers)
 //@   invariant forall j :: 0 <= j && j <= rangeindex ==> len(m.Keypers[j]) == 20
 //@
 //@ // ---- C14: events as shuttermint wrote them ---------------------------------------------------------------
